@@ -48,6 +48,9 @@ def main():
         row = {}
         try:
             for p in props:
+                # C07 (2-3 minutes) only where its own property or the limits are concerned
+                if p == "C07" and sd != "<unchanged>" and not sd.startswith(("C07", "C02", "C03", "own")) and not os.environ.get("MATRIX_ALL_C07"):
+                    continue
                 t0 = time.time()
                 pr = subprocess.run([os.path.join(ROOT, "check"), p, "quick"], cwd=ROOT, env=env, capture_output=True, text=True)
                 msg = ""
